@@ -106,6 +106,11 @@ def gen_C01(rng, tier, cfg):
                     stats["positions"] += 1
                     stats["lengths"][ln] = stats["lengths"].get(ln, 0) + 1
                     stats["variants"][v] = stats["variants"].get(v, 0) + 1
+            # one long request per variant (more than 2^16 bytes, ~1100 blocks): length arithmetic in
+            # narrower integer types would show here
+            ops.append("chacha seek %d u64 %d" % (slot, rng.choice([0, 37, 64, 2**32 * 64 - 40000])))
+            ops.append("chacha applypat %d %d %d" % (slot, rng.choice([65536, 70001, 65600 + 255]), rng.below(1000)))
+            stats["long_requests"] = stats.get("long_requests", 0) + 1
     return ops, stats
 
 
@@ -683,6 +688,11 @@ def gen_C05(rng, tier, cfg):
         ops.append("skein fin %d" % slot)
         stats["lengths"][ln] = stats["lengths"].get(ln, 0) + 1
 
+    # outputs of more than 256 counter-mode blocks (block index needs more than one byte)
+    for size, n in (("256", 8256), ("512", 16512), ("1024", 33024)):
+        for ln in ((0, 5) if tier == "quick" else (0, 1, SKEIN_B[size], 3 * SKEIN_B[size] + 1)):
+            one("%s-%d" % (size, n), SKEIN_B[size], ln, False)
+        stats["variants"] += 1
     for size, b in SKEIN_B.items():
         for n in SKEIN_N:
             variant = "%s-%d" % (size, n)
